@@ -87,6 +87,20 @@ pub fn collision_games() -> Vec<(String, Tree)> {
             .collect();
         res.push(("shared_then_own_mirror_3".into(), Tree::P(1, "root".to_string(), acts)));
     }
+    // the two players' shared infosets in opposite order in the two subtrees of a chance root: two
+    // tasks that each held one infoset's lock while reaching for the other's would deadlock
+    res.push((
+        "lock_order_inversion".into(),
+        c(
+            None,
+            vec![
+                (1.0, p(0, "x", vec![("a", p(1, "y", vec![("l", t(1.0)), ("r", t(-1.0))])), ("b", t(0.5))])),
+                (1.0, p(1, "y", vec![("l", p(0, "x", vec![("a", t(-2.0)), ("b", t(1.0))])), ("r", t(0.0))])),
+                (1.0, p(0, "x", vec![("a", p(1, "y", vec![("l", t(0.0)), ("r", t(2.0))])), ("b", t(-0.5))])),
+                (1.0, p(1, "y", vec![("l", p(0, "x", vec![("a", t(1.5)), ("b", t(-1.0))])), ("r", t(1.0))])),
+            ],
+        ),
+    ));
     res.push(("matching_pennies".into(), crate::universe::matching_pennies()));
     res.push(("binary_depth_3".into(), kary_alternating(2, 3)));
     res
